@@ -16,6 +16,8 @@ def one(i):
     a = subprocess.run(['/venv/bin/python', f'{d}/demo.py'], cwd=wt, env=env, capture_output=True, text=True, timeout=900)
     ap = run(f'git -C {wt} apply {d}/patch.diff')
     if ap.returncode: return i, 'PATCH-DOES-NOT-APPLY', ap.stderr[-200:]
+    imp = subprocess.run(['/venv/bin/python', '-c', 'import pyglove'], cwd=wt, env=env, capture_output=True, text=True, timeout=300)
+    if imp.returncode: return i, 'PATCHED-TREE-DOES-NOT-IMPORT', imp.stderr[-200:]
     b = subprocess.run(['/venv/bin/python', f'{d}/demo.py'], cwd=wt, env=env, capture_output=True, text=True, timeout=900)
     ok = a.returncode == 0 and b.returncode != 0
     return i, 'CONFIRMED' if ok else f'NOT-CONFIRMED clean_rc={a.returncode} patched_rc={b.returncode}', (a.stdout + a.stderr)[-300:] if a.returncode else (b.stdout+b.stderr)[-200:]
